@@ -221,10 +221,10 @@ fn run_sql(db: &Arc<LocustDB>, sql: &str) -> Result<db::Answer, String> {
     *CURRENT_SQL.lock().unwrap() = sql.to_string();
     let before = crate::util::panic_count();
     let r = std::panic::catch_unwind(std::panic::AssertUnwindSafe(|| {
-        crate::util::block_on_timeout(db.run_query(sql, false, true, vec![]), std::time::Duration::from_secs(10))
+        crate::util::block_on_timeout_panic_aware(db.run_query(sql, false, true, vec![]), std::time::Duration::from_secs(10), std::time::Duration::from_millis(400))
     }));
     let r = match r {
-        Ok(None) => return Err(format!("FATAL the query did not return within 10 s | panics: {:?}", crate::util::take_panics().iter().take(2).collect::<Vec<_>>())),
+        Ok(None) => return Err(format!("FATAL the query did not return within 10 s (or within 0.4 s of a panic in a database thread) | panics: {:?}", crate::util::take_panics().iter().take(2).collect::<Vec<_>>())),
         Ok(Some(x)) => Ok(x),
         Err(e) => Err(e),
     };
@@ -360,9 +360,19 @@ fn agg_may_error(a: &Value) -> bool {
 }
 
 /// C04
-pub fn check_groups(b: &Built, class: usize, queries: &[Value], expected: &[Value], vio: &mut Vec<Value>) -> (usize, usize) {
+pub fn check_groups(b: &mut Built, rebuild: &dyn Fn() -> Result<Built, String>, class: usize, queries: &[Value], expected: &[Value], vio: &mut Vec<Value>) -> (usize, usize) {
     let mut nontrivial = 0;
+    let mut judged = 0;
+    // a query that makes a database thread panic leaves the database short of workers: it is rebuilt and the
+    // remaining queries go on; queries with the same keys and aggregates as one that panicked are left out
+    // (they are counted as not judged), so one defect cannot consume the whole family
+    let mut rebuilds = 0;
+    let mut tripped: Vec<(Value, Value)> = vec![];
     for (qi, q) in queries.iter().enumerate() {
+        if tripped.iter().any(|(k, a)| *k == q["keys"] && *a == q["aggs"]) {
+            continue;
+        }
+        judged += 1;
         let keys: Vec<&str> = q["keys"].as_array().unwrap().iter().map(|k| k.as_str().unwrap()).collect();
         let aggs = q["aggs"].as_array().unwrap();
         let mut sel: Vec<String> = keys.iter().map(|k| k.to_string()).collect();
@@ -375,7 +385,21 @@ pub fn check_groups(b: &Built, class: usize, queries: &[Value], expected: &[Valu
         if exp_rows.len() > 1 {
             nontrivial += 1;
         }
-        match run_sql(&b.db, &sql) {
+        let mut res = run_sql(&b.db.clone(), &sql);
+        if matches!(&res, Err(e) if e.starts_with("FATAL")) {
+            // a panic is attributed to the query in flight, but threads of a database that an earlier query left
+            // behind may still be dying: the verdict is taken from a second run on a fresh database
+            std::thread::sleep(std::time::Duration::from_millis(200));
+            if let Ok(nb) = rebuild() {
+                let old = std::mem::replace(b, nb);
+                std::mem::forget(old);
+                crate::util::take_panics();
+                res = run_sql(&b.db.clone(), &sql);
+            }
+        }
+        let qpanics = crate::util::take_panics();
+        let vio_before = vio.len();
+        match res {
             Ok(a) => {
                 // multiset comparison: every expected group matches exactly one returned row
                 let mut used = vec![false; a.rows.len()];
@@ -414,15 +438,29 @@ pub fn check_groups(b: &Built, class: usize, queries: &[Value], expected: &[Valu
                     vio.push(json!({"prop": "C04", "oracle": if e.starts_with("FATAL") { "completes" } else { "error" }, "sql": sql, "what": e}));
                 }
                 if e.starts_with("FATAL") {
-                    break; // the database may have lost workers: judge nothing further on it
+                    tripped.push((q["keys"].clone(), q["aggs"].clone()));
+                    rebuilds += 1;
+                    if rebuilds > 60 {
+                        break;
+                    }
+                    match rebuild() {
+                        Ok(nb) => {
+                            let old = std::mem::replace(b, nb);
+                            std::mem::forget(old);
+                        }
+                        Err(_) => break,
+                    }
                 }
             }
         }
-        if vio.len() > 200 {
+        for v in vio[vio_before..].iter_mut() {
+            v["panics"] = json!(qpanics);
+        }
+        if vio.len() > 3000 {
             break;
         }
     }
-    (queries.len(), nontrivial)
+    (judged, nontrivial)
 }
 
 /// C05
